@@ -117,6 +117,16 @@ def perit_rule(fx, scope, op_path, marker="::set_loop_var_redirects", body_suffi
                 for s in f.succ(b):
                     work.append(s)
             out.append((f, not leak, t[6], "a path from the body to the back jump refreshes no register from the scope" if leak else ""))
+        # `continue` is a way out of the body too: the target that continues jump to must be emitted before the refresh, i.e. the call that fixes the
+        # continue target is not reachable from the refresh
+        conts = [(bi, t) for bi, t in calls if (t[1].get("d") or "").endswith("::set_continue_target")]
+        for cb, ct in conts:
+            after_body = set()
+            for bb, t in bodies:
+                if t[4] is not None and t[4] >= 0:
+                    after_body |= f.reachable_from(t[4])
+            late = any(cb in f.reachable_from(w) for w in way & after_body)
+            out.append((f, not late, ct[6], "the continue target is fixed after the registers were refreshed: a `continue` skips the refresh" if late else ""))
     return out
 
 
@@ -632,8 +642,11 @@ def run(fx, ck, OP):
     sw = {f.path.split("::")[-1]: bool(bad) for f, h, sp, bad in switch_rule(ctl, in_ctl, OPC)}
     if sw != {"bad_switch": True, "good_switch": False, "good_switch_patched": False}:
         ck.closed_fail.append("R9 control failed: %s" % sw)
-    pi = {f.path.split("::")[-1]: ok for f, ok, sp, why in perit_rule(ctl, in_ctl, OPC)}
-    if pi != {"bad_for": False, "good_for": True}:
+    pi = {}
+    for f, ok, sp, why in perit_rule(ctl, in_ctl, OPC):
+        nm = f.path.split("::")[-1]
+        pi[nm] = pi.get(nm, True) and ok
+    if pi != {"bad_for": False, "good_for": True, "bad_for_continue": False, "good_for_continue": True}:
         ck.closed_fail.append("R10 control failed: %s" % pi)
     oa = {}
     for f, sp, ok, why in operand_rule(ctl, in_ctl):
